@@ -101,3 +101,11 @@ Print Assumptions C18_recorded_child_found.
 Theorem C18_child_kept_by_other_ops : forall o i i' g,
   apply_op o i = Ok i' -> child_has g (child i) -> ~ op_about o g -> child_has g (child i').
 Proof. exact op_child_keeps. Qed.
+
+(* the children option of AddDesc (an index pushed with its children): every descriptor of the list that is listed as a manifest
+   is, after the loop, at the top level or recorded as a child - whatever stands before it in the list (plain-blob entries,
+   entries that were moved, entries already recorded) *)
+Theorem C18_children_option_lists_every_manifest : forall cs i c,
+  In c cs -> manifest_mt (d_mt c) = true -> listed (d_dig c) (add_move_children cs i).
+Proof. exact children_option_lists_every_manifest. Qed.
+Print Assumptions C18_children_option_lists_every_manifest.
